@@ -45,6 +45,7 @@ class T3Projector:
         self.sf = sorted(set(float(g(v)) for v in score_vals))
 
     def __call__(self, t):
+        tl = np.longdouble(t)
         t = float(t)
         if t != t:
             return [0, 0, 0]
@@ -56,8 +57,8 @@ class T3Projector:
             return [0, 0, 0]
         k = 0
         for s in self.sf:
-            if t != s and abs(t - s) <= 8 * np.spacing(abs(s) if s != 0 else 5e-324) + 1e-300:
-                k = 1 if t > s else -1
+            if tl != np.longdouble(s) and abs(t - s) <= 8 * np.spacing(abs(s) if s != 0 else 5e-324) + 1e-300:
+                k = 1 if tl > np.longdouble(s) else -1
         return [fr.numerator, fr.denominator, k]
 
 
@@ -93,7 +94,7 @@ def roc_event(ev, s, o, a, x, g):
         # nb_points as a Python int or as a NumPy integer scalar (e.g. the result of np.minimum(n, k))
         kw["nb_points"] = None if a["nb"] == -1 else [a["nb"], np.int64(a["nb"]), np.int32(a["nb"])][e["id"] % 3]
         c = roc(s, x_axis=x, **kw)
-        th = np.asarray(c.thresholds, dtype=float)
+        th = np.asarray(c.thresholds)               # as returned (extended precision stays extended)
         e["out"]["thr"] = [proj(t) for t in th]
         m = np.asarray(s.cm(th).matrix)
         e["out"]["cm"] = [[int(r[0, 0]), int(r[0, 1]), int(r[1, 0]), int(r[1, 1])] for r in m]
@@ -119,7 +120,7 @@ def roc_event(ev, s, o, a, x, g):
         for key in ("thresholds", "fnr"):
             if isinstance(kw.get(key), np.ndarray) and kw[key].size:
                 kw[key] += 1000.0                              # the caller's buffer is reused
-        e2["out"]["thr"] = [proj(t) for t in np.asarray(c.thresholds, dtype=float)]
+        e2["out"]["thr"] = [proj(t) for t in np.asarray(c.thresholds)]
         e2["out"]["fnr"] = rats(c.fnr)
         e2["out"]["fpr"] = rats(c.fpr)
         for v in VIEWS:
@@ -167,7 +168,8 @@ def run(ctx: core.Ctx):
     ctx.model("MC_C15", MC_CFG.format(**par), env={"CASES_FILE": cases_file}, timeout=7200)
     data = json.loads(cases_file.read_text())
     cases, args = data["cases"], data["args"]
-    fam = [gamma.ident(), gamma.affine(2.0, 1.0), gamma.ident_int(), gamma.affine(0.5, -3.0), gamma.ident_f32()]
+    fam = [gamma.ident(), gamma.affine(2.0, 1.0), gamma.ident_int(), gamma.affine(0.5, -3.0), gamma.ident_f32(),
+           gamma.ident_ld()]
     ids = iter(range(1, 10**9))
     events = []
     for cid, o in enumerate(cases):
